@@ -10,7 +10,8 @@ Inductive op19 :=
   | PStore (tok : option Z) (nc : bool)
   | PRetrieve (i : string)
   | PFault (i : string) (content : string) (readable : bool)   (* the harness damages / plants an entry *)
-  | PRemove (i : string).
+  | PRemove (i : string)
+  | PWipe.                                                     (* the harness removes the whole directory *)
 
 Record case19 := mk_case19 {
   k_ids : list (Z * option string);   (* token -> Metadata.Id (None: no metadata) *)
@@ -45,6 +46,7 @@ Section Inst.
         ((0, 0), match s with
                  | DDir u fs => DDir u (filter (fun kv => negb (String.eqb (fst kv) (fname i))) fs)
                  | x => x end)
+    | PWipe => ((0, 0), match s with DDir _ _ => DAbsent true | x => x end)
     end.
 
   Fixpoint run19 (s : dirstate) (os : list op19) : list (Z * Z) :=
